@@ -5,6 +5,7 @@ package main
 import (
 	"runtime"
 	"sort"
+	"strconv"
 	"strings"
 	"sync"
 	"sync/atomic"
@@ -49,6 +50,40 @@ func seqOpsTok(ops string) string {
 		return "-"
 	}
 	return ops
+}
+
+// c07.long — `skip` unrecorded NextSequenceNumber calls, then a recorded program.  The model advances
+// the abstract counter by `skip` in closed form (theorem c07_long), so runs of 2^32 calls and more — 65536
+// and more roll-overs, where a 16-bit or 32-bit roll-over / extended counter would wrap — cost only the
+// time the real code needs for them (about a minute per 2^32 calls: thorough tier).
+func genC07Long(x *Ctx) {
+	run := func(start int, skip uint64, tag string) {
+		x.Case(func(c *Case) {
+			s := start
+			if s < 0 {
+				s = c.R.Intn(65536)
+			}
+			// read RollOverCount, issue values across the next wrap, read it again
+			ops := "r" + seqRandOps(c.R, c.R.Range(2, 8), 1, 3) + "r"
+			c.I.Tok("f").Nat(s).Tok(strconv.FormatUint(skip, 10)).Tok(seqOpsTok(ops))
+			c.Tag(tag)
+			sq := rtp.NewFixedSequencer(uint16(s))
+			for k := uint64(0); k < skip; k++ {
+				sq.NextSequenceNumber()
+			}
+			seqRunOps(&c.O, sq, ops, nil)
+		})
+	}
+	for _, st := range []int{0, 1, 65535, -1} {
+		run(st, 0, "skip=0")
+		run(st, 65536*3+uint64(65530), "skip=3wraps")
+		run(st, 1<<24, "skip=2^24")
+	}
+	if x.Thorough() {
+		// 2^32 calls and a little more: the 65536th roll-over
+		run(1, 1<<32-3, "skip=2^32")
+		run(-1, 1<<32+70000, "skip=2^32")
+	}
 }
 
 func genC07Run(x *Ctx) {
@@ -909,6 +944,7 @@ func genC06Hist(x *Ctx) {
 func init() {
 	register("c06.hist", "C06", genC06Hist)
 	register("c07.run", "C07", genC07Run)
+	register("c07.long", "C07", genC07Long)
 	register("c07.hist", "C07", genC07Hist)
 	register("c07.facts", "C07", genC07Facts)
 	register("c07.randstart", "C07", genC07RandStart)
